@@ -252,6 +252,8 @@ def _run_e2e(env: Any, case: dict[str, Any]) -> Any:
     argv += ["--list-files", "."] if s in RESOLVER_KEYS else ["a.md"]
     # config value differs from both the default and the flag value where the domain allows it
     cfg_val = meta["other"]
+    if meta["kind"] == "bool" and bool(env.bool("config_value_is_default")):
+        cfg_val = meta["default"]
     if meta["kind"] == "int":
         cfg_val = meta["other"] + 7
     if meta["kind"] == "enum":
